@@ -327,6 +327,8 @@ class SimWorld(object):
         # "slow process" windows: [pid, first step, number of steps] during which the
         # process is not scheduled unless nothing else can run (bounded, so fairness holds)
         self.freeze = [tuple(int(v) for v in f) for f in schedule.get("freeze", [])]
+        self.stalls = [(str(f[0]), int(f[1]), int(f[2])) for f in schedule.get("stall", [])]
+        self.label_counts = {}
         self.procs = []
         self.queues = []
         self.parked = threading.Semaphore(0)
@@ -373,8 +375,17 @@ class SimWorld(object):
 
     def checkpoint(self, label="checkpoint"):
         """A yield point for harness callbacks (lets other processes run in between)."""
-        if getattr(self.tls, "proc", None) is None:
+        proc = getattr(self.tls, "proc", None)
+        if proc is None:
             return
+        # event-anchored stalls: the process that reaches the k-th checkpoint with a given label is not scheduled for
+        # `dur` steps from then on (a process descheduled in the middle of a critical section)
+        n = self.label_counts.get(label, 0)
+        self.label_counts[label] = n + 1
+        for (lab, k, dur) in self.stalls:
+            if lab == label and k == n:
+                self.freeze.append((proc.pid, self.steps, dur))
+                self.stalled = getattr(self, "stalled", 0) + 1
         self._yield(("nb", label))
 
     def current_pid(self):
